@@ -23,7 +23,8 @@ fn expected_bom(e: usize, bom: usize, b: &[u8]) -> (usize, usize) {
 }
 
 // params: 0 nominal encoding, 1/2 range of symbolic byte count, 3 sink, 4 replacement, 8 BOM mode,
-//         9/10 capacity range (per call, symbolic if different), 11 number of cuts (0..3), 12 empty final call allowed
+//         9/10 capacity range (per call, symbolic if different), 11 number of cuts (0..3), 12 empty final call allowed,
+//         13 k != 0: only the first k calls use that range (one symbolic value for all of them), later calls get a large destination
 harness!(se_h_c10_bom, c10_bom, {
     let e = param(0);
     let sink = param(3);
@@ -51,6 +52,8 @@ harness!(se_h_c10_bom, c10_bom, {
     let mut dec = new_decoder(e, bom);
     let mut run = Run::new(param(9));
     if param(10) > param(9) { run.sym_caps(param(9), param(10), 2); }
+    // param 13: the first call(s) offer a tiny destination (possibly below the documented minimum, down to empty), then a large one
+    if param(13) != 0 { run.sym_caps(param(9), param(10), 1); run.grow = true; run.grow_calls = param(13); run.min_progress = false; }
     let last_in_data = empty_last == 0;
     if ncuts == 0 {
         push(&mut dec, sink, repl, &src[..len], last_in_data, &mut run);
